@@ -27,7 +27,7 @@ REQUIRED_REACH = ["orchestration.py:Orchestrator._iter", "orchestration.py:Orche
                   "results.py:HDDResults.save_predictions", "results.py:HDDResults.load_predictions", "results.py:HDDResults.save_fitted_strategy",
                   "base.py:BaseResults._append_key", "base.py:HDDBaseResults.save", "strategies.py:BaseSupervisedLearningStrategy._fit",
                   "_split.py:PresplitFilesCV.split", "_split.py:SingleSplit.split", "results.py:RAMResults.load_predictions"]
-REQUIRED_MONITORS = ["fresh-clone", "exactly-once", "stored==predicted", "load==stored", "resume.untouched", "resume.no-needless-work", "resume.completes",
+REQUIRED_MONITORS = ["features", "fresh-clone", "exactly-once", "stored==predicted", "load==stored", "resume.untouched", "resume.no-needless-work", "resume.completes",
                      "resume.final==uninterrupted", "idempotent", "overwrite.recomputes-all"]
 NOT_COVERED = ["crashes inside a file write (torn files)", "Orchestrator.fit / predict (predict is not implemented)", "process-level crashes (the fault is an exception raised by the estimator)"]
 ASSUMPTIONS = ["strategies are deterministic (majority class / mean), so re-computation is observable only through the call log and file hashes"]
@@ -39,6 +39,9 @@ logging.disable(logging.CRITICAL)
 
 class Injected(RuntimeError):
     pass
+
+
+FEATURES_SEEN = []      # (op, strategy tag, feature columns handed to the estimator[, columns it was fitted on]) of the current case
 
 
 def _tick(tag, op, n, count=0):
@@ -55,6 +58,8 @@ class SpyClf(ClassifierMixin, SkBase):
     def fit(self, X, y):
         self.n_fits_ = getattr(self, "n_fits_", 0) + 1
         _tick(self.tag, "fit", len(X), self.n_fits_)
+        self.cols_ = [str(c) for c in getattr(X, "columns", [])]
+        FEATURES_SEEN.append(("fit", self.tag, list(self.cols_)))
         vals, counts = np.unique(np.asarray(y), return_counts=True)
         self.classes_ = vals
         self.maj_ = vals[np.argmax(counts)]
@@ -62,6 +67,7 @@ class SpyClf(ClassifierMixin, SkBase):
 
     def predict(self, X):
         _tick(self.tag, "predict", len(X))
+        FEATURES_SEEN.append(("predict", self.tag, [str(c) for c in getattr(X, "columns", [])], list(self.cols_)))
         return np.array([self.maj_] * len(X))
 
 
@@ -72,11 +78,14 @@ class SpyReg(RegressorMixin, SkBase):
     def fit(self, X, y):
         self.n_fits_ = getattr(self, "n_fits_", 0) + 1
         _tick(self.tag, "fit", len(X), self.n_fits_)
+        self.cols_ = [str(c) for c in getattr(X, "columns", [])]
+        FEATURES_SEEN.append(("fit", self.tag, list(self.cols_)))
         self.mean_ = float(np.mean(np.asarray(y, dtype=float)))
         return self
 
     def predict(self, X):
         _tick(self.tag, "predict", len(X))
+        FEATURES_SEEN.append(("predict", self.tag, [str(c) for c in getattr(X, "columns", [])], list(self.cols_)))
         return np.full(len(X), round(self.mean_, 6))
 
 
@@ -101,9 +110,10 @@ def cases(tier, seed):
     # always include the small reference configurations
     picks = [CONFIGS[0], {"task": "TSC", "cv": "kfold2", "ns": 2, "nd": 2, "save": True, "pot": True}] + picks
     cid = 0
+    picks = [dict(c, feat="permuted") if (j % 3 == 2) else c for j, c in enumerate(picks)]
     for cfg in picks:
         K = _total_calls(cfg)
-        for store in (("HDD", "RAM") if cfg is picks[0] else ("HDD",)):
+        for store in (("HDD", "RAM") if (cfg is picks[0] or cfg is picks[2]) else ("HDD",)):
             yield {"cfg": cfg, "store": store, "k": None, "id": cid, "dseed": int(rng.integers(0, 2 ** 31))}
             cid += 1
             if store == "RAM":
@@ -133,6 +143,8 @@ def _datasets(cfg, dseed):
         else:
             y = np.round(rng.normal(5, 2, size=n), 3)
         df = pd.DataFrame({"dim_0": cells, "target": y})
+        if cfg.get("feat") == "permuted":
+            df = pd.DataFrame({"dim_0": cells, "dim_1": [pd.Series(rng.normal(3, 1, 6)) for _ in range(n)], "extra": [pd.Series(rng.normal(9, 1, 6)) for _ in range(n)], "target": y})
         if cfg["cv"].startswith("presplit"):
             df.index = ["train"] * (n // 2) + ["test"] * (n - n // 2)
         out.append(RAMDataset(df, "data%d" % d))
@@ -181,7 +193,8 @@ def _run(cfg, dseed, path, k=None, overwrite=False, pot=None, save=None):
     from sktime.benchmarking.tasks import TSCTask, TSRTask
     ds = _datasets(cfg, dseed)
     T, S, E = (TSCTask, TSCStrategy, SpyClf) if cfg["task"] == "TSC" else (TSRTask, TSRStrategy, SpyReg)
-    tasks = [T(target="target") for _ in ds]
+    # explicit feature lists name the columns in the task's own order (not the frame's) and may leave columns out
+    tasks = [T(target="target", features=["dim_1", "dim_0"]) if cfg.get("feat") == "permuted" else T(target="target") for _ in ds]
     strategies = [S(E(tag="s%d" % i), name="strat%d" % i) for i in range(cfg["ns"])]
     res = HDDResults(path=path) if path else RAMResults()
     orch = Orchestrator(tasks, ds, strategies, _cv(cfg), res)
@@ -289,6 +302,20 @@ def _check_complete_store(ctx, cfg, path, res, ds, pot, save, where):
 
 
 def run_case(case, ctx):
+    del FEATURES_SEEN[:]
+    try:
+        return _run_case(case, ctx)
+    finally:
+        # the estimator is handed the task's feature columns, in the task's order, at fit and at every predict
+        want = ["dim_1", "dim_0"] if case["cfg"].get("feat") == "permuted" else ["dim_0"]
+        for ev in FEATURES_SEEN:
+            ctx.check("features", ev[2] == want and (ev[0] == "fit" or ev[2] == ev[3]), "strategy:%s-given-other-feature-columns-than-the-task-lists" % ev[0],
+                      "the estimator was not handed exactly the task's feature columns in the task's order", op=ev[0], got=ev[2], expected=want, fitted_on=ev[3] if ev[0] == "predict" else None)
+        if case["cfg"].get("feat") == "permuted":
+            ctx.tag("task:explicit-permuted-features")
+
+
+def _run_case(case, ctx):
     cfg, k = case["cfg"], case["k"]
     base = os.path.join(os.environ.get("VMON_HOME", "/verif"), ".cache", "c19", "%d-%d" % (os.getpid(), case["id"]))
     shutil.rmtree(base, ignore_errors=True)
